@@ -117,6 +117,14 @@ def run(analysis: Analysis, tier: str) -> RuleResult:
     if n < 10 or answered < 5:
         raise AnalysisError(f"C06-R3: only {n} id-request paths / {answered} answering paths found")
     common.check_no_key_removal(analysis, res, "C06-R4")
+    # R5: the dirty flag set by the reservation must survive until a save really completed
+    from . import c14
+
+    before = len(res.obs)
+    c14.flag_writers(analysis, res)
+    for o in res.obs[before:]:
+        o.rule = "C06-R5"
+    res.reindex()
     # R5: loader restores integer keys
     info = analysis.p.func("persistence:MySensorsJSONDecoder.dict_to_object")
     ok = False
